@@ -38,6 +38,7 @@ type Engine struct {
 	overlay     map[string][]byte
 	ghostVars   map[string]bool
 	ghostFields map[string]*SpecFunc
+	fileCache   map[string][]byte
 }
 
 func (sf *SpecFunc) String() string { return sf.Name }
@@ -267,4 +268,22 @@ func (e *Engine) findFunc(p *packages.Package, fc *FuncContract) (*ast.FuncDecl,
 func pkgDirOf(path string) string {
 	rel := strings.TrimPrefix(path, repoModule)
 	return "." + rel
+}
+
+func (e *Engine) fileBytes(name string) []byte {
+	if b, ok := e.overlay[name]; ok {
+		return b
+	}
+	if e.fileCache == nil {
+		e.fileCache = map[string][]byte{}
+	}
+	if b, ok := e.fileCache[name]; ok {
+		return b
+	}
+	b, err := os.ReadFile(name)
+	if err != nil {
+		return nil
+	}
+	e.fileCache[name] = b
+	return b
 }
